@@ -161,7 +161,7 @@ def evaluate(model, build, entries, moreau=True):
                 rhs = Rat.const(0)
                 for xj, gj, wj in zip(xs, g, ws):
                     rhs = rhs + wj * xj * gj
-                if not PA.equal_exact(lhs, rhs, WIT):
+                if not PA.same(lhs, rhs, WIT):
                     res['probs'].append(
                         'Fenchel-Young at y = grad f(x): f(x) + f*(y) = %s '
                         'but <x, y> = %s' % (_s(PA.reduce_full(lhs)),
@@ -177,7 +177,7 @@ def evaluate(model, build, entries, moreau=True):
         v = I.call(fcc, [_mk(dom, entries)], {})
         if not _finite(v):
             res['probs'].append('f**(x) = %r' % (v,))
-        elif not PA.equal_exact(PA.ired(to_rat(v)), fx, WIT):
+        elif not PA.same(PA.ired(to_rat(v)), fx, WIT):
             res['probs'].append('f**(x) = %s but f(x) = %s' % (
                 _s(PA.reduce_full(to_rat(v))), _s(fx)))
     except PyRaise as e:
@@ -200,7 +200,7 @@ def evaluate(model, build, entries, moreau=True):
         a = flat(p1 if not isinstance(p1, NA) else H.element(I, dom, p1))
         b = flat(p2 if not isinstance(p2, NA) else H.element(I, dom, p2))
         for j, (u, v, x) in enumerate(zip(a, b, xs)):
-            if not PA.equal_exact(u + sig * v, x, WIT):
+            if not PA.same(u + sig * v, x, WIT):
                 res['probs'].append(
                     'Moreau, entry %d: prox_{s f}(x) + s prox_{f*/s}(x/s) '
                     '= %s, x = %s' % (j, _s(PA.reduce_full(u + sig * v)),
